@@ -301,7 +301,7 @@ def main(mod, argv=None):
                 agg['samples'] += out['samples'][:3 - len(agg['samples'])]
     wall = time.time() - t0
     if harness is not None:
-        print(f'HARNESS-ERROR property={mod.ID}\n{harness.get("trace")}', flush=True)
+        print(f'HARNESS-ERROR property={mod.ID} run={harness.get("run")}\n{harness.get("trace")}', flush=True)
         return 2
     known = load_known(mod.ID)
     known_hits = {}
